@@ -1001,3 +1001,98 @@ Qed.
 (* pairwise disjointness of the member ranges of a slab, as a statement about positions *)
 Lemma slab_ranges_disjoint T s : good_slab T s -> ForallOrdPairs (fun a b => m_hi a <= m_lo b) s.
 Proof. exact (good_slab_disjoint T s). Qed.
+
+(* ------------------------------------------------------------------ Slab.build() on the slabs of batch_write *)
+Lemma dict_set_keys_in {K V} (eqb : K -> K -> bool) (eqb_eq : forall a b, eqb a b = true <-> a = b)
+      k v (d : list (K * V)) : In k (map fst d) -> map fst (dict_set eqb k v d) = map fst d.
+Proof.
+  induction d as [|[k' v'] d IH]; cbn [dict_set map fst]; intros H; [contradiction|].
+  destruct (eqb k' k) eqn:E; [reflexivity|]. cbn [map fst]. f_equal. apply IH.
+  destruct H as [H | H]; [|assumption]. subst k'. assert (eqb k k = true) by (apply eqb_eq; reflexivity). congruence.
+Qed.
+
+Lemma consecutive_snoc_inv rs : forall cur a b fin,
+  consecutive cur (rs ++ [(a, b)]) fin -> consecutive cur rs a /\ a <= b /\ b = fin.
+Proof.
+  induction rs as [|[lo hi] rs IH]; intros cur a b fin H; cbn in H.
+  - destruct H as (-> & Hle & <-). cbn. auto.
+  - destruct H as (-> & Hle & H). apply IH in H as (H1 & H2 & H3). cbn. auto.
+Qed.
+
+Lemma check_contiguous_ok keys : forall cur fin, consecutive cur keys fin -> check_contiguous cur keys = Some fin.
+Proof.
+  induction keys as [|[lo hi] keys IH]; intros cur fin H; cbn in *; [congruence|].
+  destruct H as (-> & _ & H). rewrite Z.eqb_refl. apply IH; assumption.
+Qed.
+
+Definition m_entry (m : member) : (Z * Z) * Z := (m_range m, m_path m).
+
+Lemma slab_dict_keys (s : list member) : forall fin,
+  consecutive 0 (map m_range s) fin ->
+  consecutive 0 (map fst (dict_of range_eqb (map m_entry s))) fin /\ (s <> [] -> dict_of range_eqb (map m_entry s) <> []).
+Proof.
+  induction s as [|x s IH] using rev_ind; intros fin H.
+  - cbn in *. split; [assumption | congruence].
+  - rewrite map_app in H. cbn [map] in H. unfold m_range at 2 in H.
+    apply consecutive_snoc_inv in H as (Hpre & Hle & Hfin). subst fin.
+    destruct (IH _ Hpre) as [Hk _].
+    rewrite map_app. cbn [map]. rewrite (dict_of_snoc range_eqb). cbn [m_entry fst snd].
+    set (d := dict_of range_eqb (map m_entry s)) in *.
+    split.
+    + destruct (in_dec (fun a b : Z * Z => ltac:(decide equality; apply Z.eq_dec)) (m_range x) (map fst d)) as [Hin | Hnot].
+      * rewrite (dict_set_keys_in range_eqb range_eqb_eq) by assumption.
+        pose proof (consecutive_bounds _ _ _ Hk _ Hin) as Hb. unfold m_range in Hb. cbn [fst snd] in Hb.
+        replace (m_hi x) with (m_lo x) by lia. assumption.
+      * rewrite (dict_set_fresh range_eqb range_eqb_eq) by assumption. rewrite map_app. cbn [map fst].
+        unfold m_range. apply consecutive_app; assumption.
+    + intros _ Hnil. pose proof (dict_set_new range_eqb range_eqb_eq (m_range x) (m_path x) d) as Hin.
+      rewrite Hnil in Hin. contradiction.
+Qed.
+
+(* BatchedBufferStager's constructor accepts every slab batch_write produces; its slab_sz_bytes is the slab size;
+   its stagers are members of the slab and include every member with a non-empty range *)
+Lemma slab_build_good T s :
+  good_slab T s ->
+  exists d, slab_build s = Some (slab_sz s, d)
+            /\ (forall m, In m s -> m_lo m < m_hi m -> In (m_range m, m_path m) d)
+            /\ (forall k v, In (k, v) d -> exists m, In m s /\ m_range m = k /\ m_path m = v).
+Proof.
+  intros (Hne & Hcons & _). unfold slab_build.
+  change (map (fun m => (m_lo m, m_hi m, m_path m)) s) with (map m_entry s).
+  destruct (slab_dict_keys s _ Hcons) as [Hk Hnn]. specialize (Hnn Hne).
+  set (d := dict_of range_eqb (map m_entry s)) in *.
+  exists d. split; [|split].
+  - destruct d as [|[[lo0 hi0] v0] r] eqn:Ed; [congruence|].
+    cbn [map fst] in Hk. cbn in Hk. destruct Hk as (_ & _ & Hk).
+    rewrite (check_contiguous_ok _ _ _ Hk). reflexivity.
+  - intros m Hm Hpos. apply (dict_of_complete range_eqb range_eqb_eq).
+    + change (m_range m, m_path m) with (m_entry m). apply in_map; assumption.
+    + intros v' Hv'. apply in_map_iff in Hv' as (m' & Heq & Hm'). unfold m_entry in Heq. inversion Heq as [[Hr Hp]].
+      destruct (consecutive_separated m_range s 0 _ Hcons m' m Hm' Hm) as [-> | [Hs | [Hs | [_ Hs]]]];
+        try reflexivity; rewrite ?Hr in *; unfold m_range in *; cbn [fst snd] in *; lia.
+  - intros k v Hkv. apply (dict_of_sound range_eqb range_eqb_eq) in Hkv.
+    apply in_map_iff in Hkv as (m & Heq & Hm). unfold m_entry in Heq. inversion Heq. exists m. auto.
+Qed.
+
+(* staging exactly the stagers BatchedBufferStager holds (its dict), in any completion order, and storing the result
+   under the slab's path establishes slab_stored - the hypothesis of write_then_read_plan *)
+Definition staged_entry (ws : list went) (e : (Z * Z) * Z) : Z * Z * bytes :=
+  (fst (fst e), snd (fst e), buf_of ws (snd e)).
+
+Lemma slab_stored_of_build T ws store k ms sz d order slab :
+  good_slab T ms -> slab_build ms = Some (sz, d) ->
+  Permutation (map (staged_entry ws) d) order ->
+  stage_slab sz order = Some slab -> lookup store (slab_path k) = Some slab ->
+  slab_stored ws store k ms.
+Proof.
+  intros Hgood Hbuild Hperm Hstage Hstore.
+  destruct (slab_build_good T ms Hgood) as (d' & Hb' & Hall & Hsub).
+  rewrite Hbuild in Hb'. inversion Hb'; subst sz d'. clear Hb'.
+  exists order, slab. split; [|split; [|split; assumption]].
+  - intros x Hx. apply (Permutation_in _ (Permutation_sym Hperm)) in Hx.
+    apply in_map_iff in Hx as ([kk v] & <- & Hkv). destruct (Hsub _ _ Hkv) as (m & Hm & <- & <-).
+    exists m. split; [assumption | reflexivity].
+  - intros m Hm Hpos. apply (Permutation_in _ Hperm).
+    change (m_lo m, m_hi m, buf_of ws (m_path m)) with (staged_entry ws (m_range m, m_path m)).
+    apply in_map. apply Hall; assumption.
+Qed.
